@@ -6,6 +6,7 @@ import numpy as np
 from scipy.spatial import ConvexHull  # pylint: disable=no-name-in-module
 
 from magpylib._src.display.traces_core import make_TriangularMesh
+from magpylib._src.exceptions import MagpylibBadUserInput
 from magpylib._src.exceptions import MagpylibMissingInput
 from magpylib._src.fields.field_BH_triangularmesh import BHJM_magnet_trimesh
 from magpylib._src.fields.field_BH_triangularmesh import calculate_centroid
@@ -508,7 +509,13 @@ class TriangularMesh(BaseMagnet):
             shape_m1=3,
             sig_name="TriangularMesh.faces",
             sig_type="array_like (list, tuple, ndarray) of shape (n,3)",
-        ).astype(int)
+        )
+        if np.any(trias != np.round(trias)):
+            raise MagpylibBadUserInput(
+                "Input parameter `TriangularMesh.faces` must contain integer vertex indices.\n"
+                f"Instead received {faces!r}.\n"
+            )
+        trias = trias.astype(int)
         try:
             verts[trias]
         except IndexError as e:
